@@ -567,3 +567,38 @@ seed("c12-term-inverted", "C12", PA, "t.coeffs[ r.degree()? - v.degree()? ] = r.
 seed("c12-exit-strict", "C12", PA, "while !r.is_zero() && r.degree()? >= v.degree()? {", "while !r.is_zero() && r.degree()? > v.degree()? {", "exit")
 seed("c12-result-swapped", "C12", PA, "        Ok( ( q ,r ) )", "        Ok( ( r ,q ) )", "exit")
 seed("c12-q-sub", "C12", PA, "            q = q + t.clone();", "            q = q.clone() + t.clone() + t.clone();", "update-pair")
+
+# ---------------------------------------------------------------- C15
+VA = "src/vector/arithmetic.rs"
+VFN = "src/vector/functions.rs"
+VO = "src/vector/operations.rs"
+seed("c15-dot-misaligned", "C15", VFN, "            result += self.vec[i] * w.vec[i];\n        }\n        result\n    }\n\n    /// Return the sum of all", "            result += self.vec[i] * w.vec[ self.size() - 1 - i ];\n        }\n        result\n    }\n\n    /// Return the sum of all", "dot")
+seed("c15-product-slice-from-start", "C15", VFN, "        for i in start+1..=end {\n            result *= self.vec[i].clone();", "        for i in start..=end {\n            result *= self.vec[i].clone();", "slices/product_slice")
+seed("c15-push-front-push", "C15", VO, "        self.vec.insert( 0, elem );", "        self.vec.push( elem );", "edit/push_front")
+seed("c15-norm-inf-noabs", "C15", VF, """        let mut result = self.vec[0].abs();
+        for i in 1..self.size() {
+            if result < self.vec[i].abs() {
+                result = self.vec[i].abs();""", """        let mut result = self.vec[0].abs();
+        for i in 1..self.size() {
+            if result < self.vec[i] {
+                result = self.vec[i];""", "abs-norms/norm_inf")
+seed("c15-sub-swapped", "C15", VA, "            result.push( self.vec[i] - minus.vec[i] );", "            result.push( minus.vec[i] - self.vec[i] );", "elementwise-polarity")
+seed("c15-subassign-adds", "C15", VA, "            self.vec[i] -= rhs.vec[i].clone();", "            self.vec[i] += rhs.vec[i].clone();", "elementwise-polarity")
+seed("c15-div-range", "C15", VA, """        for i in 0..self.size() {
+            result.push( self.vec[i].clone() / scalar.clone() );""", """        for i in 1..self.size() {
+            result.push( self.vec[i].clone() / scalar.clone() );""", "elementwise-fullrange")
+seed("c15-find-last", "C15", VFN, "let index = self.vec.iter().position( |x| *x == value );", "let index = self.vec.iter().rposition( |x| *x == value );", "find")
+seed("c15-sum-range", "C15", VFN, "        self.sum_slice( 0, self.size() - 1 )", "        self.sum_slice( 1, self.size() - 1 )", "slices/sum")
+seed("c15-norm2-p3", "C15", VF, "            result += f64::powf( self.vec[i].abs(), 2.0 );\n        }\n        f64::sqrt( result )", "            result += f64::powf( self.vec[i].abs(), 3.0 );\n        }\n        f64::sqrt( result )", "abs-norms/norm_2")
+seed("c15-linspace-den", "C15", VF, "let h: f64 = ( b - a ) / ((size as f64) - 1.0);", "let h: f64 = ( b - a ) / (size as f64);", "spacing/linspace")
+seed("c15-insert-args-swapped", "C15", VO, "    pub fn swap(&mut self, i: usize, j: usize) {\n        self.vec.swap( i, j );", "    pub fn swap(&mut self, i: usize, j: usize) {\n        self.vec.swap( i, i );", "edit/swap")
+seed("c15-conj-real", "C15", "src/vector/vec_cmplx.rs", "            vec[i] = self.vec[i].clone().conj();", "            vec[i] = self.vec[i].clone();", "assign-conj-real/conj")
+seed("c15-neg-on-copy-offset", "C15", VA, "            result[i] = -result[i].clone();", "            result[i] = -result[0].clone();", "elementwise-coindex")
+seed("c15-sumslice-guard", "C15", VFN, """    pub fn sum_slice(&self, start: usize, end: usize) -> T {
+        if start > end { panic!( "Vector sum: start > end." ); }
+        if self.size() <= start { panic!( "Vector range error." ); }
+        if self.size() <= end { panic!( "Vector range error." ); }""", """    pub fn sum_slice(&self, start: usize, end: usize) -> T {
+        if start > end { panic!( "Vector sum: start > end." ); }
+        if self.size() <= start { panic!( "Vector range error." ); }
+        if self.size() < end { panic!( "Vector range error." ); }""", "slices/sum_slice")
+seed("c15-powspace-exponent", "C15", VF, "vec[i] = a + (b - a) * f64::powf( (i as f64) / ((size as f64) - 1.0), p );", "vec[i] = a + (b - a) * f64::powf( (i as f64) / ((size as f64) - 1.0), 1.0 / p );", "spacing/powspace")
